@@ -61,11 +61,43 @@ fn main() {
                     }
                     _ => workload::cfg_class(i),
                 };
-                let Some((w, resolve, world, d)) = witgen::generate_valid(&mut rng, &cfg) else {
+                let Some((mut w, mut resolve, mut world, d)) = witgen::generate_valid(&mut rng, &cfg) else {
                     gave_up += 1;
                     continue;
                 };
                 discarded += d;
+                // `type t = borrow<r>;` makes every backend panic (core define_type, a C16 finding); the CLI-level
+                // checks need worlds on which generation succeeds, so such aliases become `type t = r;`
+                if args.get("keep-handle-aliases").is_none() && w.wit.contains(" = borrow<") {
+                    let rewritten: Vec<String> = w
+                        .wit
+                        .lines()
+                        .map(|l| {
+                            let t = l.trim_start();
+                            if t.starts_with("type ") && t.ends_with(">;") {
+                                if let Some((lhs, rhs)) = l.split_once(" = borrow<") {
+                                    let inner = &rhs[..rhs.len() - 2];
+                                    if !inner.contains('<') {
+                                        return format!("{lhs} = {inner};");
+                                    }
+                                }
+                            }
+                            l.to_string()
+                        })
+                        .collect();
+                    let text = rewritten.join("\n") + "\n";
+                    match witgen::parse(&text).and_then(|(r, id)| witgen::check_encodable(&r, id).map(|_| (r, id))) {
+                        Ok((r, id)) => {
+                            w.wit = text;
+                            resolve = r;
+                            world = id;
+                        }
+                        Err(_) => {
+                            gave_up += 1;
+                            continue;
+                        }
+                    }
+                }
                 let tags = workload::all_tags(&w, &resolve, world);
                 let path = format!("{dir}/w{i}.wit");
                 std::fs::write(&path, &w.wit).unwrap();
